@@ -28,10 +28,11 @@ var logGuards = guardTable{
 
 func runC20(r *engine.Run) {
 	r.Rule("LOCK-ring", "the ring cursor (MemCore.r), every slot value (ring.Ring.Value) and every ring traversal call (Do/Next/Prev/Len/Move) reachable from the exported methods of MemCore/MemLogger is accessed with MemCore.mu held in the required mode, and the mutex locked in a function belongs to the same core value whose ring the function touches")
-	r.Rule("AGREE-share", "no MemCore is constructed with a by-value copy of another core's ring cursor (a field that Write reassigns): a derived core must not own a second cursor over the shared ring; if it shares the ring it must share the mutex of the same core")
+	r.Rule("AGREE-share", "no MemCore is constructed with a by-value copy of another core's ring cursor (a field that Write reassigns): a derived core must not own a second cursor over the shared ring; if it shares the ring it must share the mutex of the same core; in Write the ring cursor and slots are stored only where mc.root == nil tested true (a derived core forwards to its root)")
 	r.Rule("FRESH-entry", "no field of a LoggedEntry is stored to unless the entry object was allocated in the same function (entries already handed out by GetLogs are never rewritten)")
-	r.Rule("SNAPSHOT-all", "GetLogs visits every slot of the ring: it traverses with ring.Do from the cursor, or with a loop counted up to the ring's Len()/the buffer size; a walk that stops at a sentinel (back at the cursor, first empty slot) is not accepted because it skips the slot it stops at once the ring is full")
+	r.Rule("SNAPSHOT-all", "GetLogs visits every slot of the ring: it traverses with ring.Do from the cursor, or with a loop counted up to the ring's Len()/the buffer size; a walk that stops at a sentinel (back at the cursor, first empty slot) is not accepted because it skips the slot it stops at once the ring is full; the visited non-nil slot values are stored into the slice GetLogs returns")
 	r.Rule("ORDER-advance", "Write stores the new entry into the slot at the cursor and then advances the cursor by exactly one (*ring.Ring).Next(), in that order, on every path that touches the ring")
+	r.Rule("PAIR-unlock", "every Lock/RLock of a mutex is followed on every path to a return of the acquiring function by the matching Unlock/RUnlock on the same mutex or by a deferred one registered on the path: no operation returns with the lock held (every later operation on the object would block)")
 	r.NotDec = append(r.NotDec, "'exactly the most recent N, newest first' as a sequence property of GetLogs' index arithmetic")
 	const rule = "LOCK-ring"
 	entries := exportedEntries(r, rule, pkgLog, map[string]bool{"MemCore": true, "MemLogger": true})
@@ -79,6 +80,9 @@ func runC20(r *engine.Run) {
 	freshEntry(r)
 	orderAdvance(r)
 	snapshotAll(r)
+	pairUnlock(r, "PAIR-unlock", funcsOfPkg(r, pkgLog), 2)
+	snapshotCollects(r, "SNAPSHOT-all")
+	writeAtRoot(r, "AGREE-share")
 }
 
 // sameCore: within one function, the core whose mu is locked is the core
@@ -376,5 +380,88 @@ func snapshotAll(r *engine.Run) {
 		}
 	default:
 		r.Fail(rule, fn(f)+"|traversal", r.P.Pos(f.Pos()), "GetLogs no longer traverses the ring")
+	}
+}
+
+// snapshotCollects: what the traversal visits ends up in the result: in GetLogs
+// (including the traversal callback) a non-nil slot value is stored into the
+// slice GetLogs returns.
+func snapshotCollects(r *engine.Run, rule string) {
+	f := r.Fn(rule, pkgLog, "MemLogger", "GetLogs")
+	if f == nil {
+		return
+	}
+	collects := false
+	var scan func(g *ssa.Function)
+	scan = func(g *ssa.Function) {
+		engine.Instrs(g, func(in ssa.Instruction) {
+			st, ok := in.(*ssa.Store)
+			if !ok {
+				return
+			}
+			if _, isIdx := st.Addr.(*ssa.IndexAddr); !isIdx {
+				return
+			}
+			// the stored value derives from the callback's argument / a slot value
+			v := st.Val
+			for {
+				if ta, ok := v.(*ssa.TypeAssert); ok {
+					v = ta.X
+					continue
+				}
+				break
+			}
+			if p, ok := v.(*ssa.Parameter); ok && g != f && p == g.Params[0] {
+				collects = true
+			}
+			if fld := fieldLoadOf(v); fld != nil && fld.Name() == "Value" {
+				collects = true
+			}
+		})
+		for _, a := range g.AnonFuncs {
+			scan(a)
+		}
+	}
+	scan(f)
+	r.Check(collects, rule, fn(f)+"|collects", r.P.Pos(f.Pos()), "the visited slot values are stored into the returned slice",
+		"GetLogs traverses the ring but no longer stores the visited entries into its result: retained entries are lost from every snapshot")
+}
+
+// writeAtRoot: only the root core stores into the ring; a derived core forwards
+// to its root (the single cursor under the single mutex).
+func writeAtRoot(r *engine.Run, rule string) {
+	f := r.Fn(rule, pkgLog, "MemCore", "Write")
+	if f == nil {
+		return
+	}
+	n := 0
+	o := ord{}
+	engine.Instrs(f, func(in ssa.Instruction) {
+		st, ok := in.(*ssa.Store)
+		if !ok {
+			return
+		}
+		fld := engine.FieldOf(st.Addr)
+		if fld == nil || (fld.Name() != "Value" && fld.Name() != "r") {
+			return
+		}
+		n++
+		good := false
+		if facts, full := engine.FactsOn(f, st.Block()); full {
+			for _, ft := range facts {
+				if ft.Kind == "eq" && ft.Truth {
+					for _, side := range [][2]ssa.Value{{ft.A, ft.B}, {ft.B, ft.A}} {
+						if fl := fieldLoadOf(side[0]); fl != nil && fl.Name() == "root" && nilConst(side[1]) {
+							good = true
+						}
+					}
+				}
+			}
+		}
+		r.Check(good, rule, o.next(fn(f)+"|store "+fld.Name()), r.P.Pos(st.Pos()), "the ring is written only where mc.root == nil tested true (the core is the root)",
+			"a core writes the ring cursor or a slot on a path where it may be a derived core: derived loggers then write under their own mutex (or into no ring at all) instead of forwarding to the root")
+	})
+	if n < 2 {
+		r.Anchor(rule, fmt.Errorf("unresolved anchor: %d ring stores in MemCore.Write", n))
 	}
 }
